@@ -438,6 +438,20 @@ func ownProbes(knownPath string) {
 	}
 	report("C12-F3", "dedup-merges-negative-zero-with-zero", "custom Importable returning &Float{-0.0}; "+src3, obs3,
 		"RemoveDuplicates keys float constants by the Go map key float64: -0.0 and 0.0 are one key, the constant -0.0 is replaced by 0.0")
+	src4 := "nz := import(\"nz\")\nb := 1.0 / nz\ns := string(nz)\n"
+	want4, got4 := run(src4, func(bc *tengo.Bytecode) *tengo.Bytecode {
+		out, err := gobRoundTrip(bc, mm)
+		if err != nil {
+			return nil
+		}
+		return out
+	})
+	obs4 := ""
+	if want4 != got4 {
+		obs4 = got4 + " (original: " + want4 + ")"
+	}
+	report("C12-F4", "gob-reads-negative-zero-constant-back-as-zero", "custom Importable returning &Float{-0.0}; "+src4, obs4,
+		"encoding/gob omits a float field that compares equal to zero: the constant -0.0 is read back as +0.0 by Decode")
 	report("C12-F2", "dedup-merges-distinct-maps-with-equal-module-name", "two custom Importables returning different immutable maps with the same __module_name__; "+src2, obs,
 		"RemoveDuplicates keys *ImmutableMap constants by __module_name__ only")
 }
